@@ -185,6 +185,6 @@ theorem seqs_reqBefore {os : List Obj} (h : SeqPB [] os) :
     simp only [List.nil_append] at this
     refine ⟨⟨a, as⟩, ?_, hreq⟩
     rw [← h3]
-    exact mem_seqsOf.2 this
+    exact seqsOf_mem.2 this
 
 end SE.Aoef
